@@ -23,6 +23,7 @@ def main():
             if not c["frag"]:
                 continue
             c["variant"] = i % 6
+            c["falsy"] = i % 5 == 3        # every fifth condition runs on a world of falsy objects
             c["family"] = fam
             c["c02"] = (len(cases) % 2 == 0)
             # selected attribute expressions are C01's business (row consistency, finding F02)
